@@ -1317,11 +1317,11 @@ func (c *Checker) checkMethod(
 
 	checkedMethod.SetHasDefer(c.hasDefer())
 
-	c.setHasDefer(prevHasDefer)
 	c.returnType = prevReturnType
 	c.throwType = prevThrowType
 	c.mode = prevMode
 	c.flags = prevFlags
+	c.setHasDefer(prevHasDefer)
 	c.catchScopes = prevCatchScopes
 	return typedReturnTypeNode, typedThrowTypeNode
 }
